@@ -325,7 +325,7 @@ def _for_chain(text):
 
 
 _ADAPTERS = ("map", "filter", "flat_map", "tuple_combinations")
-_CONSUMERS = ("any", "sum", "fold", "collect")
+_CONSUMERS = ("any", "sum", "fold", "collect", "max", "min")
 
 
 def _recv_start(b, dot):
@@ -375,10 +375,15 @@ def _expr_chain(text):
     pos = 0
     while True:
         b = R.blank(text)
-        m = re.compile(r"(\biproduct!\s*\()|(\.\s*(?:into_)?iter\s*\(\s*\))|(\b(%s)\s*\()" % "|".join(ITER_SOURCES)).search(b, pos)
+        m = re.compile(r"(\biproduct!\s*\()|(\.\s*(?:into_)?iter\s*\(\s*\))|(\b(%s)\s*\()|(\(\s*[\w.]+\s*\.\.\s*[\w.]+\s*\)\s*\.\s*into_par_iter\s*\(\s*\))" % "|".join(ITER_SOURCES)).search(b, pos)
         if not m:
             return text, k
-        if m.group(1):
+        if m.group(5):
+            # rayon range: `(a..b).into_par_iter()` — element-wise adapters and an order-insensitive consumer: read sequentially
+            start = m.start()
+            src_end = m.end()
+            kind = "par_range"
+        elif m.group(1):
             start = m.start()
             src_end = R.match_close(b, m.end() - 1) + 1
             kind = "iproduct"
@@ -437,6 +442,10 @@ def _expr_chain(text):
             else:
                 head.append("let s%d_ = &%s; for i%d_ in 0..s%d_.len() { let %s = &s%d_[i%d_];" % (k, recv, k, k, e, k, k))
                 opens = 1
+        elif kind == "par_range":
+            rng_ = re.match(r"\(\s*(.*?)\s*\)\s*\.", " ".join(text[start:src_end].split())).group(1)
+            head.append("for i%d_ in %s { let %s = i%d_;" % (k, rng_, e, k))
+            opens = 1
         elif kind == "iproduct":
             args = text[m.end():src_end - 1]
             ab = R.blank(args)
@@ -497,6 +506,13 @@ def _expr_chain(text):
             init, upd = "let mut %s = false;" % acc, "if { let %s = %s; %s } { %s = true; }" % (cl[0], e, cl[1], acc)
         elif cons[0] == "sum":
             init, upd = "let mut %s: f64 = 0.;" % acc, "%s = %s + %s;" % (acc, acc, e)
+        elif cons[0] == "min":
+            init = "let mut %s = None;" % acc
+            upd = "%s = match %s { None => Some(%s), Some(b%d_) => match %s.cmp(&b%d_) { Ordering::Less => Some(%s), _ => Some(b%d_) } };" % (acc, acc, e, k, e, k, e, k)
+        elif cons[0] == "max":
+            # Iterator::max / ParallelIterator::max: a greatest element by Ord::cmp (std returns the last of several equal ones)
+            init = "let mut %s = None;" % acc
+            upd = "%s = match %s { None => Some(%s), Some(b%d_) => match %s.cmp(&b%d_) { Ordering::Less => Some(b%d_), _ => Some(%s) } };" % (acc, acc, e, k, e, k, k, e)
         elif cons[0] == "fold":
             ab = R.blank(cons[1])
             depth, cut = 0, None
